@@ -17,13 +17,15 @@ def run(chk):
     jobs = [dict(name='threads2-preempt2', threads=2, max_preempt=2, timeout=300),
             dict(name='threads2-preempt2-evicting-cache', threads=2, max_preempt=2, small_cache=2, warm=2, timeout=300),
             dict(name='history-seq5-cap2', seq=5, filters=3, capacity=2, timeout=300),
+            dict(name='history-values-seq4-cap2', seq=4, filters=4, capacity=2, family=2, timeout=300),
             dict(name='long-history-1500', history=True, n=1500)]
     if not quick:
         jobs += [dict(name='threads2-preempt3', threads=2, max_preempt=3, timeout=1500),
                  dict(name='threads3-preempt2', threads=3, max_preempt=2, timeout=1500),
                  dict(name='threads3-preempt2-evicting-cache', threads=3, max_preempt=2, small_cache=2, warm=2, timeout=1500),
                  dict(name='history-seq6-cap2', seq=6, filters=4, capacity=2, timeout=2400),
-                 dict(name='history-seq6-cap3', seq=6, filters=4, capacity=3, timeout=2400)]
+                 dict(name='history-seq6-cap3', seq=6, filters=4, capacity=3, timeout=2400),
+                 dict(name='history-values-seq6-cap3', seq=6, filters=4, capacity=3, family=2, timeout=2400)]
     if chk.only:
         jobs = [j for j in jobs if chk.only in j['name']]
     chk.bounds = dict(threads='2 (quick) / 2-3 (thorough)', preemptions='<= 2 (quick) / <= 3 (thorough)',
@@ -80,8 +82,8 @@ def run(chk):
         if 'cex' in res:
             c = res['cex']
             if j.get('seq'):
-                body = ('sys.path.insert(0, %r)\nfrom vf import sched\nmsg = sched.sequence_run(hszinc, %r, %d)\n'
-                        'if msg is not None:\n    VIOLATED(msg)\nHOLDS()\n') % (common.VERIF, [tuple(x) for x in c['schedule']], j.get('capacity', 2))
+                body = ('sys.path.insert(0, %r)\nfrom vf import sched\nmsg = sched.sequence_run(hszinc, %r, %d, %d)\n'
+                        'if msg is not None:\n    VIOLATED(msg)\nHOLDS()\n') % (common.VERIF, [tuple(x) for x in c['schedule']], j.get('capacity', 2), j.get('family', 1))
             else:
                 body = ('sys.path.insert(0, %r)\nfrom vf import sched\nmsg = sched.replay_schedule(hszinc, %d, %d, %r, %d)\n'
                         'if msg is not None:\n    VIOLATED(msg)\nHOLDS()\n') % (common.VERIF, j.get('threads', 2), j.get('warm', 0), c['schedule'], j.get('small_cache', 0))
